@@ -447,6 +447,9 @@ func c10RunOnce(s *c10Scn, addr string, imp *c10Imp) error {
 					return
 				}
 				stream = stream[n:]
+				if s.ChunkPauseMs > 0 && len(stream) > 0 {
+					time.Sleep(time.Duration(s.ChunkPauseMs) * time.Millisecond)
+				}
 			}
 		}(ci)
 	}
